@@ -660,6 +660,13 @@ class _ClassInitVisitor(_AssignVisitor):
                         pynamesdef.AssignmentValue(self.assigned_ast)
                     )
 
+    def _Assign(self, node):
+        # Only `self.attr = ...` targets matter here.  Comprehensions in the
+        # value belong to the method's scope, not to the class.
+        self.assigned_ast = node.value
+        for child_node in node.targets:
+            self.visit(child_node)
+
     def _Tuple(self, node):
         if not isinstance(node.ctx, ast.Store):
             return
